@@ -452,6 +452,8 @@ def families(lang, tier, tokens, max_pairs=None):
     for t in lic:
         T.labels_in(t, reached)
     cover = list(covering_trees(lang, rule_vocabulary(lang) - reached).values())
+    for t in T.long_trees(lang):
+        yield 'arbitrary', t, [f'w{i}' for i in range(T.n_leaves(t))]
     for name, fam in (('licensed', lic), ('licensed', cover), ('arbitrary', arb)):
         for idx, t in enumerate(fam):
             n = T.n_leaves(t)
